@@ -1033,12 +1033,18 @@ impl Scenario for FilterWrite {
          reproduces it; `rdhs_filtered` == walker count; exit 0. Non-trivial: >= 2 packets and >= 3 threads."
             .into()
     }
-    fn make(&self, seed: u64, _case: u64, tier: Tier) -> Trial {
+    fn make(&self, seed: u64, case: u64, tier: Tier) -> Trial {
         let mut rng = Rng::new(seed);
         let n = packet_count(&mut rng, tier).min(2000);
         let nl = rng.range(1, 6) as usize;
         let mp = *rng.pick(&[0usize, 64, 1000, 10_000]);
-        let input = gen_arbitrary(&mut rng, n, mp, nl);
+        let mut input = gen_arbitrary(&mut rng, n, mp, nl);
+        if case % 12 == 11 {
+            // the repository's well-framed sample files
+            if let Some((_, b)) = crate::corpus::pick(&mut rng, 300_000, true) {
+                input = b;
+            }
+        }
         let w = walk(&input);
         let kind = rng.below(3);
         let mut values: Vec<Filter> = Vec::new();
@@ -2159,6 +2165,65 @@ fn link_fault(st: &mut Stream, li: usize, rng: &mut Rng) -> &'static str {
     }
 }
 
+/// C06 on the repository's multi-link sample files: the groups (links, FEE IDs in stave mode) are
+/// cut out of the byte stream with the independent walker.
+fn isolate_from_sample_file(rng: &mut Rng, mode_i: usize) -> Option<Trial> {
+    let stave = mode_i == 4;
+    let group = |p: &itsgen::walker::Pkt| -> u16 { if stave { p.rdh.fee_id } else { p.rdh.link_id as u16 } };
+    let mut pick = None;
+    for _ in 0..6 {
+        let (_, b) = crate::corpus::pick(rng, 300_000, true)?;
+        let w = walk(&b);
+        let mut groups: Vec<u16> = Vec::new();
+        for p in &w.pkts {
+            if !groups.contains(&group(p)) {
+                groups.push(group(p));
+            }
+        }
+        if groups.len() >= 2 {
+            pick = Some((b, w, groups));
+            break;
+        }
+    }
+    let (bytes, w, groups) = pick?;
+    let pkt_bytes = |p: &itsgen::walker::Pkt| bytes[p.off..p.off + p.rdh.offset_next as usize].to_vec();
+    let parts = s(CHECK_MODES[mode_i]);
+    let n_pk = w.pkts.len() as u64;
+    let mk = |input: Vec<u8>, extra: &[String], rng: &mut Rng| -> ExecSpec {
+        let mut p = parts.clone();
+        p.extend(extra.iter().cloned());
+        let im = pick_input_mode(rng);
+        let mut sp = specgen::spec(im, &p, input);
+        if rng.chance(4, 5) {
+            swarm_schedule(&mut sp, rng, 300 + n_pk * 12);
+        }
+        sp
+    };
+    let mut runs: Vec<(IsoRole, ExecSpec)> = vec![(IsoRole::Reference, mk(bytes.clone(), &[], rng))];
+    // contiguous merge: group after group
+    let mut contiguous = Vec::with_capacity(bytes.len());
+    for g in &groups {
+        for p in w.pkts.iter().filter(|p| group(p) == *g) {
+            contiguous.extend_from_slice(&pkt_bytes(p));
+        }
+    }
+    runs.push((IsoRole::OtherMerge, mk(contiguous, &[], rng)));
+    let g = groups[rng.usize_below(groups.len())];
+    let mut extracted = Vec::new();
+    for p in w.pkts.iter().filter(|p| group(p) == g) {
+        extracted.extend_from_slice(&pkt_bytes(p));
+    }
+    runs.push((IsoRole::Extracted(g), mk(extracted.clone(), &[], rng)));
+    let f = if stave { Filter::Fee(g) } else { Filter::Link(g as u8) };
+    runs.push((IsoRole::Filtered(g), mk(bytes.clone(), &f.args(), rng)));
+    let mut seq = mk(extracted, &[], rng);
+    seq.seq_pass = true;
+    seq.policy = crate::exec::PolicySpec::Canonical;
+    seq.cap_limit = None;
+    runs.push((IsoRole::Sequential(g), seq));
+    Some(Trial::Isolate { runs, by_fee: stave, label: format!("{} sample files", CHECK_MODES[mode_i].join(" ")) })
+}
+
 impl Scenario for Isolate {
     fn property(&self) -> &'static str {
         "C06"
@@ -2188,6 +2253,11 @@ impl Scenario for Isolate {
         let mut rng = Rng::new(seed);
         let mode_i = [2usize, 3, 4, 1][(case % 4) as usize];
         let stave = mode_i == 4;
+        if (case / 4) % 8 == 7 {
+            if let Some(t) = isolate_from_sample_file(&mut rng, mode_i) {
+                return t;
+            }
+        }
         let mut cfg = GenCfg::swarm(&mut rng, stave);
         cfg.n_links = rng.range(2, 8) as usize;
         // two FEE IDs on one link number: legal where validation is per FEE ID
